@@ -33,17 +33,25 @@ name is an identifier (no colon). -/
 def ParseCaught (X : Ext Tree) : Prop :=
   ∀ src e, X.parse src = .error e → e.caught = true ∧ cColon ∉ e.name
 
+/-- HYPOTHESIS on an external: `flatten_ast` raises only instances of the caught classes (in practice
+`ValueError` and `RecursionError`), whose class name is an identifier. -/
+def FlattenCaught (X : Ext Tree) : Prop :=
+  ∀ src t e, X.flatten src t = .error e → e.caught = true ∧ cColon ∉ e.name
+
 /-- HYPOTHESIS on an external: the feature search never raises (DESIGN finding 17 was an input where it did).
 Together with `ParseCaught` this assumes, for the two externals that matter, what the conclusion needs. -/
-def FeaturesTotal (X : Ext Tree) : Prop := ∀ src t, ∃ ls, X.features src t = .ok ls
+def FeaturesTotal (X : Ext Tree) : Prop := ∀ src t, ∃ ls, X.features src t = .ok ls  -- regex/SQL search only
 
-/-- Every file has its record; invalid and empty files carry the single expected label, and their
+/-- Every file has its record; invalid, unflattenable and empty files carry the single expected label, and their
 taxa are the taxonomy's answer on that single label. -/
 def Reported (X : Ext Tree) (toTaxa : Name → List Label → List Taxon) (files : List (Name × Name))
     (db : Db) : Prop :=
   keys db.programs = files.map (·.1) ∧
   ∀ f ∈ files, ∃ r, get? db.programs f.1 = some r ∧ r.source = srcOf X f ∧
     (∀ e, X.parse (srcOf X f) = .error e →
+      r.labels = [(sAst ++ e.name, [(1, (((srcOf X f).count 10 : Nat) : Int) + 1)])] ∧
+      r.taxa = preparedTaxa (toTaxa f.1 [astLabel e.name (srcOf X f)])) ∧
+    (∀ t e, X.parse (srcOf X f) = .ok t → X.isEmpty t = false → X.flatten (srcOf X f) t = .error e →
       r.labels = [(sAst ++ e.name, [(1, (((srcOf X f).count 10 : Nat) : Int) + 1)])] ∧
       r.taxa = preparedTaxa (toTaxa f.1 [astLabel e.name (srcOf X f)])) ∧
     (∀ t, X.parse (srcOf X f) = .ok t → X.isEmpty t = true →
